@@ -180,13 +180,53 @@ def check_case(ctx, case):
                 ctx.count('fault_framing_corruption_' + kind)
 
 
+# ------------------------------------------------------------------ coverage-guided tier (atheris)
+def fuzz_decode(data):
+    """bytes -> case.  Byte 0: mode (legal encoding built by the harness encoder | raw bytes offered as a chunked body)."""
+    if len(data) < 6:
+        return None
+    mode, b1, b2, b3, b4 = data[0], data[1], data[2], data[3], data[4]
+    rest = data[5:]
+    if mode % 3 == 0:
+        return {'raw': bytes(rest), 'buf': 4 + b1 % 60, 'pattern': [1 + (b2 >> i) % 7 for i in range(b3 % 4)]}
+    nsz = 1 + b1 % 8
+    sizes = [1 + x % 40 for x in rest[:nsz]]
+    payload = bytes(rest[nsz:])
+    return {'payload': payload, 'sizes': sizes, 'spell': [{'upper': bool(b2 & 1), 'zeros': (b2 >> 1) % 3}, {'upper': bool(b2 & 8), 'zeros': 0}],
+            'exts': [None, 'a=b', 'x'][: 1 + b3 % 3], 'last_ext': ['', 'q'][b3 >> 7], 'last_zeros': (b3 >> 4) % 3, 'trailers': [[], ['X-A: b']][b4 & 1],
+            'final_crlf': bool(b4 & 2), 'buf_extra': (b4 >> 2) % 8, 'pattern': [1 + (b4 >> 5) % 7, 1 + b1 % 5][: (b2 >> 4) % 3], 'cut': (b1 * 256 + b2)}
+
+
+def fuzz_one(ctx, case):
+    if 'raw' in case:
+        # arbitrary bytes as a chunked body: accepted or a parsing error, nothing else (and no hang: libFuzzer -timeout)
+        kind, body = decode_direct(case['raw'], case['buf'], case['pattern'])
+        return
+    enc, layout, buf = build(case)
+    kind, body = decode_direct(enc, buf, case['pattern'])
+    if kind != 'ok' or body != case['payload']:
+        raise CheckFailure(f'legal chunked encoding {enc[:120]!r} buf={buf} pattern={case["pattern"]}: {kind} {body[:60] if body else body!r}, payload {case["payload"][:60]!r}')
+    last = [s for k, s, e in layout if k == 'last'][0]
+    end_of_last_line = [e for k, s, e in layout if k == 'last'][0]
+    cut = case['cut'] % end_of_last_line
+    kind, body = decode_direct(enc[:cut], buf, case['pattern'])
+    if kind != 'reject':
+        raise CheckFailure(f'truncated encoding accepted: enc={enc[:120]!r} cut at {cut} -> body {body[:60]!r} (buf={buf}, pattern={case["pattern"]})')
+
+
 def run(ctx):
     for name, case in load_corpus(ID):
         ctx.guarded(check_case, case)
         ctx.count('corpus')
     n = 1500 if ctx.tier == 'quick' else 6000
     ctx.hyp(_strategy(), check_case, n)
+    if ctx.tier == 'thorough' and ctx.shard < 4:
+        from vlib import fuzz
+        seeds = [] if ctx.shard % 2 else [bytes([1, 3, 2, 1, 7]) + b'\x05\x06\x03hello world, chunked', bytes([0, 9, 2, 1, 0]) + b'5\r\nhello\r\n0\r\n\r\n']
+        fuzz.campaign(ctx, __import__('checks.c05_chunked', fromlist=['x']), runs=150000, max_len=300, seeds=seeds)
 
 
 def replay(ctx, case):
+    if 'raw' in case or 'cut' in case:
+        return fuzz_one(ctx, case)
     check_case(ctx, case)
